@@ -751,7 +751,6 @@ func (m *c14M) known(key string) bool {
 	return true
 }
 
-
 // ---------------------------------------------------------------------------
 // Actions.
 
